@@ -36,6 +36,15 @@ Definition check_gen (c : case) : bool :=
                 vclose 0 (ps_pc st) (ps_pc obs))
       | _, _ => false
       end
+  | CActUpd dim P st pop invs rtol obs =>
+      (* regenerated success frequency and regenerated (psucc, sigma) step of _rank1update against the observed state
+         (the constraint updates that follow do not touch them) *)
+      match gen_active_p_succ FOps (as_pfit st) pop with
+      | None => sclose 0 (as_psucc st) (as_psucc obs) && sclose 0 (as_sigma st) (as_sigma obs)
+      | Some p =>
+          let '(ps', sg') := gen_active_rank1_scalar FOps P (as_psucc st) (as_sigma st) p in
+          sclose 0x1p-40 ps' (as_psucc obs) && sclose rtol sg' (as_sigma obs)
+      end
   | _ => true
   end.
 
